@@ -212,3 +212,13 @@ PROPERTY_ASSUMPTIONS["C18"] = [
 ]
 M("C18", "c18_lite_tx_projection", ["saito_core::core::consensus::block::Block::generate_lite_block::{closure#0} and its two nested closures"],
   "transactions with 0..=2 inputs x 0..=2 outputs (thorough 0..=3), every type, owners symbolic 33-byte keys; key lists of 0..=2 (3) symbolic keys in any order", covers=20)
+
+# ============================================================================== C14
+PROPERTY_ASSUMPTIONS["C14"] = [
+    "inductive steps from a pool satisfying Inv (utxo_map holds exactly the inputs of the pooled transactions; pooled transaction = 1 with 1..=2 inputs), routing work and fees within the token supply; async bodies with every poll Ready",
+    "golden-ticket typed transactions are kept in a separate collection and are outside add_transaction's claim (it panics on them by design; the caller routes them elsewhere)",
+    "bundling (Block::create draining the pool before its fallible checks), validity of every pooled transaction after arbitrary reorganisation histories and interleavings with consensus events are outside this revision's claim",
+]
+M("C14", "c14_add_transaction_step", ["Mempool::add_transaction (async body)"], "pooled transaction with 1..=2 inputs x new transaction with 1..=2 inputs, every 59-byte key / amount / 64-byte signature / non-GT type symbolic", covers=4)
+M("C14", "c14_reorg_revalidates_pool", ["Blockchain::remove_block_transactions", "its retain closure"], "all paths of both bodies, callees uninterpreted")
+M("C14", "c14_delete_releases_reservations", ["Mempool::delete_transactions"], "pool holding one transaction with one input; the block confirms that transaction")
